@@ -54,12 +54,13 @@ def new_salt(ctx):
     return f"s{ctx.shard}n{_salt_counter[0]}"
 
 
-def make_case(ctx, features=None, max_classes=4, max_fields=5, n_objs=3, default_ns=None, max_depth=3, json_mode=False):
+def make_case(ctx, features=None, max_classes=4, max_fields=5, n_objs=3, default_ns=None, max_depth=3, json_mode=False, boost=()):
     rng = ctx.rng
     if default_ns is None:
         default_ns = rng.random() < 0.5
     salt = new_salt(ctx)
     g = ir.Gen(rng, salt, features=features, max_classes=max_classes, max_fields=max_fields)
+    g.boost = set(boost)
     model = g.model()
     style = rng.choice([0, 0, 1, 2, 3])
     if style & 1:
@@ -69,6 +70,8 @@ def make_case(ctx, features=None, max_classes=4, max_fields=5, n_objs=3, default
     objs = []
     for _ in range(n_objs):
         objs.append(ig.obj(model.root))
+    if ig.wildcard_model_count:
+        ctx.feature("value:model-instance-in-wildcard")
     return Case(model, style, loaded, objs, default_ns)
 
 
